@@ -1,5 +1,5 @@
 """C17 — bookmarks become a well-formed outline that reads back."""
-import json, os, copy
+import json, os, copy, hashlib
 from concurrent.futures import ThreadPoolExecutor
 import vlib
 from vlib import Check, tlc, run_bin, workdir, write_ndjson, read_ndjson, log
@@ -12,7 +12,8 @@ META = {
     "text": "TLC explores every add sequence of up to 4 bookmarks (= every ordered forest in every attach order) with every page "
             "assignment (zero page on parents, fixed by adjust_zero_pages) and titles of five Unicode classes, and checks that the "
             "transcription of add_bookmark / recursive_fix_pages / outline_child / get_outlines / get_toc refines the declarative "
-            "formulas Fresh, Links, Carries and ReadBack. Each enumerated behaviour is driven through the real API; random forests "
+            "formulas Fresh (also: later allocations never reuse an outline id), Links, Carries and ReadBack; the catalog link is made "
+            "through the existing catalog or through a new catalog allocated after build_outline. Each enumerated behaviour is driven through the real API; random forests "
             "(<= 25 bookmarks, depth <= 6, titles from the whole Unicode range) are run through lopdf, and for every run TLC judges "
             "the projected outline objects and the get_toc() results (built, reloaded from an xref-table file, reloaded from an "
             "xref-stream file) against the declarative layer.",
@@ -22,7 +23,8 @@ META = {
     "design_ref": "DESIGN.md section 4 C17",
 }
 
-ACTIONS = ["AddBookmark", "AdjustZeroPages", "SkipAdjust", "BuildOutline", "LinkCatalog", "GetToc", "SaveLoad"]
+SFX = ""
+ACTIONS = ["AddBookmark", "AdjustZeroPages", "SkipAdjust", "BuildOutline", "AddObject", "LinkCatalog", "LinkNewCatalog", "GetToc", "SaveLoad"]
 
 
 def depth_of(adds):
@@ -136,7 +138,7 @@ def signature(verdict, rec):
 
 def detail(rec, verdict):
     d = {"verdict": verdict, "np": rec.get("np"), "adds": rec.get("adds"), "adjust": rec.get("adjust")}
-    for k in ("pageids", "root", "rootrec", "max_id", "base", "changed", "items", "toc0", "toc1", "toc2", "fmts", "chain", "panic", "style"):
+    for k in ("pageids", "root", "rootrec", "max_id", "base", "changed", "items", "later", "clobbered", "post", "link", "toc0", "toc1", "toc2", "fmts", "chain", "panic", "style"):
         if k in rec:
             d[k] = rec[k]
     return d
@@ -149,7 +151,8 @@ def judge_records(chk, recs, path, name, parts):
         if "panic" in r:
             phase = r["panic"].split(":")[0].replace(" ", "-")
             if phase.startswith("harness"):
-                raise vlib.ToolError("harness failure: %s" % r["panic"])
+                chk.deferred.append("harness failure: %s" % r["panic"])
+                continue
             chk.case(json.dumps(r["adds"]))
             chk.violation("C17:panic." + phase, detail(r, "panic"))
     write_ndjson(path, good)
@@ -158,9 +161,11 @@ def judge_records(chk, recs, path, name, parts):
     chk.transitions += g
     out = []
     for r, v in zip(good, verdicts):
-        chk.case(json.dumps(r["adds"]))
-        if v == "ok-outside-domain":
-            raise vlib.ToolError("driver produced a forest outside the domain of C17: %s" % json.dumps(r["adds"])[:300])
+        chk.case(json.dumps([r["adds"], r.get("post", 0), r.get("link", "mut")]))
+        if v == "ok-outside-domain":     # decided by TLC from the inputs (adds, adjust) alone
+            chk.deferred.append("driver produced a forest outside the domain of C17: %s" % json.dumps(r["adds"])[:300])
+            out.append((r, v))
+            continue
         if v.startswith("ok"):
             chk.traces += 1
             if v == "ok-drift":
@@ -172,7 +177,7 @@ def judge_records(chk, recs, path, name, parts):
 
 
 NEG = ["links.siblings", "links.parent", "links.first-last", "links.root-ends", "carries.title", "carries.dest", "fresh.overlap",
-       "fresh.maxid", "readback.built", "readback.reloaded", "readback.reloaded"]
+       "fresh.maxid", "fresh.reserved", "readback.built", "readback.reloaded", "readback.reloaded"]
 
 
 def negative_controls(rec):
@@ -195,6 +200,7 @@ def negative_controls(rec):
     mut(lambda r: r["items"][0].update(dest=r["oldids"][0] if r["items"][0]["dest"] != r["oldids"][0] else r["oldids"][1]))
     mut(lambda r: r["oldids"].append(r["items"][-1]["id"]))
     mut(lambda r: r.update(max_id=r["max_id"] - 1))
+    mut(lambda r: r["later"].append(r["items"][0]["id"]))
     mut(lambda r: r["toc0"]["toc"].reverse())
     mut(lambda r: r["toc1"]["toc"][0].__setitem__(0, r["toc1"]["toc"][0][0] + 1))
     mut(lambda r: r["toc2"]["toc"].pop())
@@ -202,20 +208,29 @@ def negative_controls(rec):
 
 
 def run(tier):
+    """Order matters: every lopdf run is judged first; vacuity / sanity conditions are derived from the INPUTS
+    (generated cases, chosen forests), collected in chk.deferred and raised as ToolError only when no violation
+    was found, so that they can never mask one."""
     chk = Check("C17", META["level"], tier)
+    chk.deferred = []
     chk.rule = ("bookmark forests as add sequences (TLC-enumerated by MC_Outline and seeded random ones); every case has >= 1 "
-                "bookmark, is built, linked, read back, saved and reloaded in both xref formats; distinct by add sequence")
-    w = workdir("c17")
+                "bookmark, is built, followed by 0..3 further allocations, linked (existing or new catalog), read back, saved "
+                "and reloaded in both xref formats; distinct by add sequence + allocation/link variant")
+    # runs against a scratch worktree (VERIF_REPO) get their own work and TLC directories
+    global SFX
+    SFX = "" if vlib.REPO == "/repo" else "-" + hashlib.sha1(vlib.REPO.encode()).hexdigest()[:8]
+    w = workdir("c17" + SFX)
     quick = tier == "quick"
-    # ---------------- (M) + (G): model checking, generation, replay into lopdf
+    # ---------------- (M) + (G): model checking, generation, replay into lopdf   (independent of /repo)
     cfgs = ["MC_Outline_quick.cfg", "MC_Outline_quick4.cfg"] if quick else ["MC_Outline_thorough.cfg"]
     seen, cases = set(), []
     for cfg in cfgs:
-        r = tlc("MC_Outline.tla", cfg, workers=4 if quick else 16, coverage=True, timeout=3000, xmx="4g" if quick else "8g")
+        r = tlc("MC_Outline.tla", cfg, workers=4 if quick else 16, coverage=True, timeout=3000, xmx="4g" if quick else "8g",
+                name=os.path.splitext(cfg)[0] + SFX)
         vlib.require_coverage(r, ACTIONS)
         chk.add_tlc(r)
         for c in r.tagged("REPLAY"):
-            k = json.dumps([c["np"], c["adds"], c["adjust"]])
+            k = json.dumps([c["np"], c["adds"], c["adjust"], c["post"], c["link"]])
             if k not in seen:
                 seen.add(k)
                 cases.append(c)
@@ -225,24 +240,33 @@ def run(tier):
     have = set()
     for c in cases:
         have |= classes(c["adds"])
-    if need - have:
-        raise vlib.ToolError("vacuous generation: classes never generated: %s" % sorted(need - have))
+    variants = {(min(c["post"], 1), c["link"]) for c in cases}
+    if need - have or variants != {(0, "mut"), (1, "mut"), (0, "new"), (1, "new")}:
+        raise vlib.ToolError("vacuous generation: classes never generated: %s, allocation/link variants %s" % (
+            sorted(need - have), sorted(variants)))
+    # control of the model itself: without the reservation the action property Reserved must fail
+    rn = tlc("MC_Outline.tla", "MC_Outline_noreserve.cfg", workers=1, allow_violation=True, name="c17noreserve" + SFX)
+    if rn.violation != "Reserved":
+        raise vlib.ToolError("model control: Reserved not violated when build_outline does not reserve its ids (%s)" % rn.violation)
+    chk.extra["model_controls_rejected"] = 1
     cin, cout = os.path.join(w, "gen.ndjson"), os.path.join(w, "gen.out.ndjson")
-    write_ndjson(cin, [{"np": c["np"], "adds": c["adds"], "adjust": c["adjust"]} for c in cases])
+    write_ndjson(cin, [{"np": c["np"], "adds": c["adds"], "adjust": c["adjust"], "post": c["post"], "link": c["link"]} for c in cases])
     run_bin("c17", ["replay", "--in", cin, "--out", cout])
     results = read_ndjson(cout)
     if len(results) != len(cases):
-        raise vlib.ToolError("replay lost cases")
-    judged = judge_records(chk, results, os.path.join(w, "gen.trace.ndjson"), "c17gen", 1 if quick else 6)
+        raise vlib.ToolError("replay lost cases")          # the supervisor writes one record per case whatever lopdf does
+    judged = judge_records(chk, results, os.path.join(w, "gen.trace.ndjson"), "c17gen" + SFX, 1 if quick else 6)
     # the value TLC's declarative layer computed for the behaviour vs lopdf's answer
     by_case = {rec["case"]: (rec, v) for rec, v in judged}
     for i, c in enumerate(cases):
         if i + 1 not in by_case:
             continue
         rec, v = by_case[i + 1]
+        if not v.startswith(("ok", "readback")) or v == "ok-outside-domain":
+            continue
         same = all(rec[t]["ok"] and rec[t]["toc"] == c["exp"]["toc"] for t in ("toc0", "toc1", "toc2"))
-        if same != (not v.startswith("readback")) and v.startswith(("ok", "readback")):
-            raise vlib.ToolError("replay comparison and trace verdict disagree on case %d: %s vs %s" % (i + 1, same, v))
+        if same != v.startswith("ok"):
+            chk.deferred.append("replay comparison and trace verdict disagree on case %d: %s vs %s" % (i + 1, same, v))
         if v.startswith("ok"):
             base = rec["base"]
             ids = c["exp"]["ids"]
@@ -250,8 +274,8 @@ def run(tier):
                 chk.extra["model_drift"] = chk.extra.get("model_drift", 0) + 1
     chk.extra["replayed_behaviours"] = len(cases)
     mid = cases[len(cases) // 2]
-    chk.sample({"generated_adds": mid["adds"], "np": mid["np"], "spec_readback": mid["exp"]["toc"],
-                "lopdf_toc_reloaded": results[len(cases) // 2].get("toc2", {}).get("toc")})
+    chk.sample({"generated_adds": mid["adds"], "np": mid["np"], "post": mid["post"], "link": mid["link"],
+                "spec_readback": mid["exp"]["toc"], "lopdf_toc_reloaded": results[len(cases) // 2].get("toc2", {}).get("toc")})
     chk.exhaustive = True
     # ---------------- (V): recorded random forests judged by the declarative layer
     n = 250 if quick else 4000
@@ -260,43 +284,46 @@ def run(tier):
     recs = read_ndjson(tr)
     if len(recs) != n + 4:
         raise vlib.ToolError("recorder lost runs")
-    judged = judge_records(chk, recs, os.path.join(w, "rec.trace.ndjson"), "c17rec", 1 if quick else 8)
-    have = set()
-    big = 0
+    judged = judge_records(chk, recs, os.path.join(w, "rec.trace.ndjson"), "c17rec" + SFX, 1 if quick else 8)
+    # vacuity of the recorded set, from the chosen inputs only (every record carries its inputs, also after a panic)
+    have, big, variants = set(), 0, set()
     for rec in recs:
         have |= classes(rec["adds"])
         big += len(rec["adds"]) >= 15
-    if need - have or big == 0 or not any(depth_of(rec["adds"]) == 6 for rec in recs):
-        raise vlib.ToolError("vacuous trace set: classes %s, %d forests >= 15, depth 6 reached: %s" % (
-            sorted(need - have), big, any(depth_of(rec["adds"]) == 6 for rec in recs)))
-    if not any(v.startswith("ok") and max(paren_nesting(a["title"]) for a in rec["adds"]) == 100 for rec, v in judged):
-        raise vlib.ToolError("vacuous: the run with 100 nested parentheses (the reader's limit) did not pass")
+        if "post" in rec:
+            variants.add((min(rec["post"], 1), rec["link"]))
+    nest = {max(paren_nesting(a["title"]) for a in rec["adds"]) for rec in recs}
+    if need - have or big == 0 or not any(depth_of(rec["adds"]) == 6 for rec in recs) or not {100, 101} <= nest:
+        chk.deferred.append("vacuous trace set: classes %s, %d forests >= 15, depth 6 reached: %s, paren nestings %s" % (
+            sorted(need - have), big, any(depth_of(rec["adds"]) == 6 for rec in recs), sorted(x for x in nest if x > 50)))
+    if all("post" in rec for rec in recs) and len(variants) != 4:
+        chk.deferred.append("vacuous trace set: allocation/link variants %s" % sorted(variants))
     chk.extra["recorded_runs"] = len(recs)
     chk.extra["recorded_max_bookmarks"] = max(len(rec["adds"]) for rec in recs)
     s = recs[0]
     if "panic" not in s:
-        chk.sample({"recorded_adds": s["adds"][:6], "lopdf_items": s["items"][:4], "lopdf_toc": s["toc0"]["toc"][:6]})
-    # ---------------- (B): negative controls
+        chk.sample({"recorded_adds": s["adds"][:6], "lopdf_items": s["items"][:4], "later": s["later"], "lopdf_toc": s["toc0"]["toc"][:6]})
+    # ---------------- (B): negative controls (need one run that was judged ok to corrupt)
     base = None
     for rec, v in judged:
-        if v.startswith("ok") and len(rec["adds"]) >= 4 and any(it["next"] for it in rec["items"]) \
+        if v in ("ok", "ok-drift") and len(rec["adds"]) >= 4 and any(it["next"] for it in rec["items"]) \
                 and any(it["first"] for it in rec["items"]) and len(rec["oldids"]) >= 2:
             base = rec
             break
+    chk.extra["negative_controls_rejected"] = 0
+    chk.extra["negative_controls"] = 0
     if base is None:
-        if chk.violations:
-            # every candidate run already violates the property: nothing sound to corrupt, report the violations
-            chk.extra["negative_controls_rejected"] = 0
-            chk.extra["negative_controls"] = 0
-            return chk.finish()
-        raise vlib.ToolError("no record suitable for the negative controls")
-    negs = negative_controls(base)
-    ntr = os.path.join(w, "neg.ndjson")
-    write_ndjson(ntr, negs)
-    nv, _, _ = judge_with_tlc(ntr, len(negs), "c17neg")
-    rejected = sum(1 for v in nv if not v.startswith("ok"))
-    chk.extra["negative_controls_rejected"] = rejected
-    chk.extra["negative_controls"] = len(negs)
-    if nv != NEG:
-        raise vlib.ToolError("negative controls: expected %s, validator said %s" % (NEG, nv))
-    return chk.finish()
+        chk.deferred.append("no record suitable for the negative controls")
+    else:
+        negs = negative_controls(base)
+        ntr = os.path.join(w, "neg.ndjson")
+        write_ndjson(ntr, negs)
+        nv, _, _ = judge_with_tlc(ntr, len(negs), "c17neg" + SFX)
+        chk.extra["negative_controls_rejected"] = sum(1 for v in nv if not v.startswith("ok"))
+        chk.extra["negative_controls"] = len(negs)
+        if nv != NEG:
+            chk.deferred.append("negative controls: expected %s, validator said %s" % (NEG, nv))
+    rc = chk.finish()
+    if rc == 0 and chk.deferred:
+        raise vlib.ToolError("; ".join(chk.deferred[:3]))
+    return rc
